@@ -2,7 +2,6 @@ from __future__ import annotations
 
 import math
 from abc import ABC
-from itertools import combinations
 from typing import TYPE_CHECKING, Union, cast, overload
 
 import numpy as np
@@ -169,17 +168,25 @@ class QuadricTensor(ProjectiveTensor, ABC):
             i = np.argmax(np.abs(np.diagonal(b, axis1=-2, axis2=-1)), axis=-1)
             beta = csqrt(-b[(*indices, i, i)])
             p = -b[(*indices, slice(None), i)] / np.where(beta != 0, beta, -1)[..., None]
+            m = hat_matrix(p)
 
         else:
-            ind = np.indices((n, n))
-            ind = np.stack(
-                [np.delete(np.delete(ind, i, axis=1), i, axis=2) for i in combinations(range(n), n - 2)], axis=1
-            )
-            minors = det(self.array[..., ind[0], ind[1]])
-            p = csqrt(-minors)  # type: ignore[arg-type]
+            # For the quadric e f^T + f e^T the skew symmetric matrix is m_kl = e_k f_l - e_l f_k. The principal minors
+            # a_ii a_jj - a_ij^2 = -m_ij^2 only determine the entries up to sign, so fix the sign of the largest one and
+            # derive the others from m_ij m_ik = a_ij a_ik - a_ii a_jk and the Pluecker relation.
+            a = self.array
+            diag = np.diagonal(a, axis1=-2, axis2=-1)
+            minors = diag[..., :, None] * diag[..., None, :] - a**2
+            i, j = np.unravel_index(np.abs(minors).reshape(minors.shape[:-2] + (-1,)).argmax(axis=-1), (n, n))
+            m_ij = csqrt(-minors[(*indices, i, j)])[..., None]
+            m_ij = np.where(m_ij != 0, m_ij, 1)
+            a_i, a_j = a[(*indices, i)], a[(*indices, j)]
+            a_ij, a_ii, a_jj = a[(*indices, i, j)][..., None], a[(*indices, i, i)][..., None], a[(*indices, j, j)][..., None]
+            row_i = (a_ij * a_i - a_ii * a_j) / m_ij
+            row_j = (a_jj * a_i - a_ij * a_j) / m_ij
+            m = (outer(row_i, row_j) - outer(row_j, row_i)) / m_ij[..., None]
 
         # use the skew symmetric matrix m to get a matrix of rank 1 defining the same quadric
-        m = hat_matrix(p)
         t = self.array + m
 
         # components are in the non-zero rows and columns (up to scalar multiple)
